@@ -42,6 +42,13 @@ def c01(c):
 # --------------------------------------------------------------------------- C02
 def c02(c):
     r = c.mc("MC_Corrupt", mc_cfg("MC_Corrupt", c.tier), workers=12, timeout=3000, coverage=False)
+    if c.tier == "thorough":
+        n, ok, secs = vlib.run_tlapm("LRCDetect")
+        log("[P] TLAPS LRCDetect: %d obligations, all proved=%s, %.1fs" % (n, ok, secs))
+        if not ok:
+            raise vlib.ToolError("the TLAPS proof spec/proofs/LRCDetect.tla does not check (a defect of the proof, not of the code)")
+        c.details["tlaps"] = {"module": "spec/proofs/LRCDetect.tla", "obligations": n, "discharged": n,
+                              "theorems": ["Substitution", "SwapInByte", "SwapAcrossBytes (any frame length: the damaged sum is not 0 mod 256)"]}
     shards = 16 if c.tier == "thorough" else 12
     files, n, _ = vlib.record("C02", c.tier, c.seed, shards)
     c.validate("Trace_Codec", "Trace_Codec.cfg", files, ["record", "C02"], procs=PROCS, timeout=3000)
@@ -469,9 +476,11 @@ def extra(c):
     c.details["multi_controller"] = {"policy_transfer_ok": True, "policy_free_counterexample": True}
     n, ok, secs = vlib.run_tlapm("PixelIndex")
     log("[P] TLAPS PixelIndex: %d obligations, all proved=%s, %.1fs" % (n, ok, secs))
-    if not ok:
+    n2, ok2, secs2 = vlib.run_tlapm("LRCDetect")
+    log("[P] TLAPS LRCDetect: %d obligations, all proved=%s, %.1fs" % (n2, ok2, secs2))
+    if not ok or not ok2:
         raise vlib.ToolError("TLAPS proof does not check")
-    c.details["tlaps"] = {"obligations": n, "discharged": n}
+    c.details["tlaps"] = {"obligations": n + n2, "discharged": n + n2}
     return c.finish("model_checking", "extras: two controllers sharing a bus; Display formats of frames/messages/pages validated against Display.tla; liveness of controller calls; TLAPS layout proof")
 
 
